@@ -70,6 +70,7 @@ type Rec struct {
 	Aux  string `json:"aux,omitempty"`
 	Req  int    `json:"req,omitempty"` // down.hdr of an upstream response: the request it was produced for
 	Err  bool   `json:"err,omitempty"` // down.*: the scripted sender returned an error from this call
+	Seen string `json:"seen,omitempty"` // filter.send: the response the filter was handed (kind:status)
 }
 
 type hist struct {
@@ -187,6 +188,17 @@ func (p *scriptPool) NewStream(ctx context.Context, receiver types.StreamReceive
 		p.host.ClusterInfo().Stats().UpstreamRequestActive.Inc(1)
 	}
 	h.add(Rec{Kind: "up.new", K: k, Code: live, Aux: res + "@" + p.host.AddressString()})
+	if n := h.spec.HostsGoneAfter; n > 0 && k+1 == n && h.spec.GroupKey == "" {
+		// the environment: every host of the cluster fails its health check while this attempt is in flight (the request keeps its
+		// cluster snapshot, the hosts in it are the shared host objects: a later host selection finds no healthy one)
+		if snap := clusterMng.GetClusterSnapshot(context.Background(), h.cluster); snap != nil {
+			snap.HostSet().Range(func(hst types.Host) bool {
+				hst.SetHealthFlag(api.FAILED_ACTIVE_HC)
+				return true
+			})
+		}
+		h.add(Rec{Kind: "env.hostsgone", K: k})
+	}
 	if k == 0 && h.spec.PoolDelayMs > 0 {
 		time.Sleep(time.Duration(h.spec.PoolDelayMs) * time.Millisecond)
 		h.add(Rec{Kind: "pool.wake", K: k})
@@ -301,19 +313,9 @@ func (u *upStream) remoteReset(reason types.StreamResetReason) bool {
 
 var errSender = errors.New("scripted sender error")
 
-// downstream: server stream handed to NewStreamDetect
-type downSender struct {
-	stream.BaseStream
-	h *hist
-}
-
-func (d *downSender) ID() uint64              { return uint64(d.h.id) }
-func (d *downSender) GetStream() types.Stream { return d }
-func (d *downSender) AppendHeaders(ctx context.Context, headers api.HeaderMap, end bool) error {
-	// whose headers are these?  a filter's direct response carries x-direct; a hijack reuses the REQUEST headers ("service") or a
-	// filter-supplied map (x-hijacked); an upstream response carries only x-status.  (The status of a hijack lives in a context
-	// variable that TerminateStream and the worker may write concurrently: it is read, but the kind does not depend on it.)
-	kind, code := "up", 0
+// whose response headers are these?  (see downSender.AppendHeaders)
+func classifyReply(ctx context.Context, headers api.HeaderMap) (kind string, code int) {
+	kind = "up"
 	if headers != nil {
 		if v, ok := headers.Get("x-direct"); ok && v == "1" {
 			kind = "direct"
@@ -332,6 +334,22 @@ func (d *downSender) AppendHeaders(ctx context.Context, headers api.HeaderMap, e
 			}
 		}
 	}
+	return
+}
+
+// downstream: server stream handed to NewStreamDetect
+type downSender struct {
+	stream.BaseStream
+	h *hist
+}
+
+func (d *downSender) ID() uint64              { return uint64(d.h.id) }
+func (d *downSender) GetStream() types.Stream { return d }
+func (d *downSender) AppendHeaders(ctx context.Context, headers api.HeaderMap, end bool) error {
+	// whose headers are these?  a filter's direct response carries x-direct; a hijack reuses the REQUEST headers ("service") or a
+	// filter-supplied map (x-hijacked); an upstream response carries only x-status.  (The status of a hijack lives in a context
+	// variable that TerminateStream and the worker may write concurrently: it is read, but the kind does not depend on it.)
+	kind, code := classifyReply(ctx, headers)
 	req := 0
 	if kind == "up" && headers != nil {
 		if v, ok := headers.Get("x-req"); ok {
@@ -577,7 +595,8 @@ func (f *sendFilter) Append(ctx context.Context, headers api.HeaderMap, buf buff
 	if vs := h.spec.Filters[f.idx].Verdicts; n < len(vs) {
 		v = vs[n]
 	}
-	h.add(Rec{Kind: "filter.send", K: f.idx, Aux: v})
+	sk, sc := classifyReply(ctx, headers)
+	h.add(Rec{Kind: "filter.send", K: f.idx, Aux: v, Seen: fmt.Sprintf("%s:%d", sk, sc)})
 	// a send filter answers through the receive handler it kept (as the transcoder filter does on a transcoding failure)
 	var rh api.StreamReceiverFilterHandler
 	h.mu.Lock()
